@@ -92,7 +92,7 @@ CLAIMED = {
         "perfect matching and have no incidence on later blocks; all zero-shift dependency patterns of <=4 Sequential equations and sampled larger "
         "ones must be reordered validly by sequentialize (or raise leaving the model untouched); split_into_blocks and block-wise solve_steady on "
         "models built from generated matrices must use the same partition and reproduce numpy.linalg.solve.",
-        "Exhaustive only for n<=4; structurally singular matrices, duplicate left-hand names and steady plans are outside the generated domain.",
+        "Exhaustive only for n<=4; structurally singular matrices and duplicate left-hand names are outside the generated domain; steady plans with one swap only.",
         "DESIGN.md section 3, C16",
     ),
     "C18": (
